@@ -850,6 +850,17 @@ func runFailCase(c *vf.Ctx, fp *faultProgram, idx int, fs failSpec) *failOutcome
 	}
 	top := fp.prog.Pipeline(fp.prog.Top.Callee)
 	r := cs.Run(vrun.RunOpts{Args: args, Seed: fp.seed, Timeout: 120 * time.Second})
+	// --autoretry=N: the failing job is executed at most N+1 times by one mrp
+	attempts := 0
+	for _, e := range cs.Events() {
+		if e.Ev == "start" && logicalJob(e.Job) == logicalJob(fs.Job) {
+			attempts++
+		}
+	}
+	if fs.Repeated && attempts > fs.AutoRetry+1 {
+		add("retry-budget-exceeded:"+fs.Fail, fmt.Sprintf("with --autoretry=%d the failing job %s (%s on every attempt) was executed %d times by one mrp (timed out: %v)", fs.AutoRetry, fs.Job, fs.Fail, attempts, r.TimedOut))
+		return oc
+	}
 	if r.TimedOut {
 		if n := idleLoops(cs.Trace(), 0); n >= 20 {
 			add("hang-after-fault:"+fs.Fail, fmt.Sprintf("with fault %v mrp neither failed nor completed: %d idle loop iterations; log tail: %s", fs, n, tail(stripDump(r.Output), 500)))
@@ -1121,6 +1132,16 @@ func init() {
 						fs.AutoRetry = 2
 					}
 					jobs = append(jobs, job{fp, idx, fs})
+					idx++
+				}
+				// a fault that mrp takes for transient, on every attempt: the retry
+				// budget must run out and the pipestance fail
+				for k, kind := range []string{"kill_mrjob", "segv"} {
+					j := fp.jobs[rng.Intn(len(fp.jobs))]
+					if st := fp.prog.Stage(fp.jobStage[j]); st != nil && st.SrcLang == "py" {
+						kind = "py_kill"
+					}
+					jobs = append(jobs, job{fp, idx, failSpec{Job: j, Fail: kind, Repeated: true, AutoRetry: 1 + k}})
 					idx++
 				}
 				// transient faults retried in-process (retry.json: "signal: ..."),
